@@ -27,7 +27,7 @@ PROPS = {
     "C02": ["C02_schedule.v"],
     "C03": ["C03_stream.v", "C02_schedule.v"],
     "C04": ["C04_json.v", "C04_roundtrip.v", "C04_closed.v"],
-    "C05": ["C05_operators.v"],
+    "C05": ["C05_operators.v", "C05_late_read.v"],
     "C06": ["C06_syntax.v", "C06_evaluates_identically.v"],
     "C07": ["C07_control.v", "C10_objects_sorted.v"],
     "C08": ["C08_frames.v"],
